@@ -138,7 +138,7 @@ def run(ctx):
     wconsts = consts_for(ctx, "witness")
     for w in WITNESSES:
         wcfg = tlc.write_cfg(os.path.join(ctx.scratch, w + ".cfg"), constants=wconsts, invariants=[w], deadlock=False)
-        wres = tlc.check_model("Placement", wcfg, ctx.scratch, timeout=300)
+        wres = tlc.check_model("Placement", wcfg, ctx.scratch, timeout=300, workers=2, heap="1g")
         if wres.invariant != w:
             raise tlc.MachineryError("vacuity witness %s was not reached" % w)
     ctx.note("vacuity_witnesses_reached", len(WITNESSES))
